@@ -71,3 +71,45 @@ theorem general_step (hL : Sorted L) (hR : Sorted R) (d : D) (hinv : GInv emit L
       · exact step_inner_jj hinv hin hr hjj rfl rfl rfl rfl rfl rfl hin rfl rfl rfl rfl (by simp [D.I]) (by simp [D.J])
 
 end Exetera.Join
+
+namespace Exetera.Join
+open Exetera Exetera.Spec
+
+variable {emit : Bool} {L R : List Int} {cs : Nat} {inv : Int}
+
+theorem kmu_le_fuel (d : D) (hl : ChunkOK L d.lch) (hr : ChunkOK R d.rch) :
+    kmu cs d ≤ partialFuel (mkP L R cs inv d) := by
+  simp only [kmu, partialFuel, mkP, D.iMax, D.jMax]
+  split <;> omega
+
+/-- a whole `_partial` call: returns normally (no out-of-bounds access, within its fuel), keeps the global invariant,
+    leaves its loop guard false, never increases the global variant and decreases it if it ran at all -/
+theorem general_partial (hL : Sorted L) (hR : Sorted R) (d : D) (hinv : GInv emit L R cs inv d) :
+    ∃ k', runPartial (gvariant emit) (mkP L R cs inv d) d.k = .ok k' ∧ GInv emit L R cs inv { d with k := k' } ∧
+      partialGuard (gvariant emit) (mkP L R cs inv d) k' = false ∧
+      gmu emit L R { d with k := k' } ≤ gmu emit L R d ∧
+      (partialGuard (gvariant emit) (mkP L R cs inv d) d.k = true → gmu emit L R { d with k := k' } < gmu emit L R d) := by
+  have hmk : ∀ s : K, mkP L R cs inv { d with k := s } = mkP L R cs inv d := fun s => rfl
+  have key := whileE_rule (partialGuard (gvariant emit) (mkP L R cs inv d)) (partialBody (gvariant emit) (mkP L R cs inv d))
+    (fun s => GInv emit L R cs inv { d with k := s } ∧ gmu emit L R { d with k := s } ≤ gmu emit L R d ∧
+      (s ≠ d.k → gmu emit L R { d with k := s } < gmu emit L R d))
+    (fun s => kmu cs { d with k := s })
+    (by
+      intro s ⟨hI, hle, hne⟩ hg
+      have := general_step hL hR { d with k := s } hI (by rw [hmk]; exact hg)
+      obtain ⟨s', h1, h2, h3, h4⟩ := this
+      rw [hmk] at h1
+      refine ⟨s', by rw [partialBody_general]; exact h1, ⟨h2, ?_, ?_⟩, h3⟩
+      · exact Nat.le_of_lt (Nat.lt_of_lt_of_le h4 hle)
+      · intro _; exact Nat.lt_of_lt_of_le h4 hle)
+    (partialFuel (mkP L R cs inv d)) d.k ⟨hinv, Nat.le_refl _, fun h => absurd rfl h⟩ (kmu_le_fuel d hinv.lok hinv.rok)
+  obtain ⟨k', h1, ⟨h2, h3, h4⟩, h5⟩ := key
+  refine ⟨k', h1, h2, h5, h3, ?_⟩
+  intro hg
+  apply h4
+  intro heq
+  rw [heq] at h5
+  rw [h5] at hg
+  cases hg
+
+end Exetera.Join
